@@ -77,6 +77,10 @@ def check(w):
         for nrun in (1, 3, 99, 100, 101, 500):
             for empty in (False, True):
                 scen.append({"shape": sh, "framing": {"kind": "runs", "run": nrun, "empty": empty, "first": 0 if sh in ("small", "listing", "error") else 40}})
+        # informational frames that carry nothing, text without a newline, a newline only
+        for text in ("EMPTY", "NONL", "NL"):
+            for nrun in (1, 3):
+                scen.append({"shape": sh, "framing": {"kind": "runs", "run": nrun, "empty": False, "infotext": text, "first": 0 if sh in ("small", "listing", "error") else 40}})
         # an error frame in the LAST stage of the session: before / inside the final phase marker and the statistics
         for k in (1, 4, 5, 8, 12, 13, 16, 20, 24):
             scen.append({"shape": sh, "framing": {"kind": "errat", "errat": 0, "fromend": k}})
@@ -120,7 +124,7 @@ def check(w):
         "framing_patterns_from_tlc": len(pats), "evaluations": len(obs), "distinct_nontrivial": sum(1 for o in obs if o["outframes"] != o["nframes"]),
         "frames_forwarded": sum(o["outframes"] for o in obs), "error_injections": sum(1 for o in obs if o["injerr"]),
         "rule": "a real client pulls from a real server through a proxy that re-cuts the server's frames: every TLC framing pattern (data frames of 1..3 units, empty and info frames, error at any point; stream of 4 units scaled to the real stream), "
-                "fixed frame sizes 1, 2, 3, 5, 4096, 262144 (splitting the server's frames) and 7, 32769, 100000, 262144 (merging them), runs of 1..500 info or empty frames before data frames, an injected error frame at chosen stream offsets; session shapes: small tree, files of 4093..4097 and 256 KiB + 4 KiB bytes, "
+                "fixed frame sizes 1, 2, 3, 5, 4096, 262144 (splitting the server's frames) and 7, 32769, 100000, 262144 (merging them), runs of 1..500 info or empty frames before data frames (info frames with text, without newline, with nothing at all), an injected error frame at chosen stream offsets; session shapes: small tree, files of 4093..4097 and 256 KiB + 4 KiB bytes, "
                 "600 KiB literal, delta, listing, server-side error; non-trivial = the client saw a different number of frames than the server sent",
         "action_coverage": cov, "negative_controls": len(bad), "worker_crashes": summ["crashed"],
     }
